@@ -118,28 +118,129 @@ fn copies_strategy(t: Tier) -> BoxedStrategy<gen::Sharing> {
     gen::sharing(t)
 }
 
-/// records that differ only in TTL / cache-flush: whenever the library calls them equal they must hash equally
-type PairIn = (ARecord, u32, bool);
+/// records that differ only slightly (TTL, cache-flush, the letter case of one label, the class):
+/// whenever the library calls two values equal they must hash equally
+type PairIn = (ARecord, u32, bool, u8, u16);
 
 fn pair_strategy(_t: Tier) -> BoxedStrategy<PairIn> {
-    (gen::arecord(), gen::u32b(), any::<bool>()).boxed()
+    (gen::arecord_with_n(gen::ardata_n(gen::share_name()), gen::share_name()), gen::u32b(), any::<bool>(), 0u8..6, any::<u16>()).boxed()
+}
+
+fn flip_case(n: &mut AName, pick: u16) -> bool {
+    let spots: Vec<(usize, usize)> = n.0.iter().enumerate().flat_map(|(i, l)| l.0.iter().enumerate().filter(|(_, b)| b.is_ascii_alphabetic()).map(move |(j, _)| (i, j))).collect();
+    if spots.is_empty() {
+        return false;
+    }
+    let (i, j) = spots[gen::pick(pick, spots.len())];
+    n.0[i].0[j] ^= 0x20;
+    true
 }
 
 fn check_pair(input: &PairIn, case: &mut Case) -> Result<(), Fail> {
-    let (rec, ttl2, flush2) = input;
+    let (rec, ttl2, flush2, how, pick) = input;
     let mut other = rec.clone();
-    other.ttl = *ttl2;
-    other.cache_flush = *flush2;
+    match how {
+        0 | 1 => {
+            other.ttl = *ttl2;
+            other.cache_flush = *flush2;
+            case.class("ttl-flush");
+        }
+        2 | 3 => {
+            if flip_case(&mut other.name, *pick) {
+                case.class("owner-case");
+            }
+        }
+        4 => {
+            if let ARData::Typed { fields, .. } = &mut other.rdata {
+                for f in fields.iter_mut() {
+                    if let Val::Name(n) = f {
+                        if flip_case(n, *pick) {
+                            case.class("rdata-name-case");
+                        }
+                        break;
+                    }
+                }
+            }
+        }
+        _ => {
+            other.class = if rec.class == 1 { 3 } else { 1 };
+            case.class("class");
+        }
+    }
     case.nontrivial = other != *rec;
     let a = lib("build_record", || build_record(rec))?.map_err(|e| Fail::new("harness:build", e))?;
     let b = lib("build_record", || build_record(&other))?.map_err(|e| Fail::new("harness:build", e))?;
+    // the parts that are keys in their own right
+    if lib("Name::eq", || a.name == b.name)? {
+        ensure!(h(&a.name) == h(&b.name), "c16:hash-name", "names {:?} and {:?} are == but hash differently", rec.name.render(), other.name.render());
+        let set: std::collections::HashSet<&simple_dns::Name> = [&a.name, &b.name].into_iter().collect();
+        ensure!(set.len() == 1, "c16:set", "two equal names occupy {} slots of a HashSet", set.len());
+    }
+    if lib("RData::eq", || a.rdata == b.rdata)? {
+        ensure!(h(&a.rdata) == h(&b.rdata), "c16:hash-rdata", "rdata values are == but hash differently");
+    }
+    for (x, y) in a.name.get_labels().iter().zip(b.name.get_labels()) {
+        if x == y {
+            ensure!(h(x) == h(y), "c16:hash-label", "labels are == but hash differently");
+        }
+    }
     if lib("ResourceRecord::eq", || a == b)? {
         case.class("equal");
-        ensure!(h(&a) == h(&b), "c16:hash-record", "records differing only in ttl/cache-flush are == but hash differently");
+        ensure!(h(&a) == h(&b), "c16:hash-record", "records {:?} and {:?} are == but hash differently", rec, other);
         let set: std::collections::HashSet<ResourceRecord> = [a.clone(), b.clone()].into_iter().collect();
         ensure!(set.len() == 1, "c16:set", "two equal records occupy {} slots of a HashSet", set.len());
     } else {
         case.class("different");
+    }
+    Ok(())
+}
+
+/// values at the edges of the constructors: empty TXT, empty NULL, no params / windows / options, root names
+fn enum_special(_t: Tier, shard: usize, n: usize, f: &mut dyn FnMut(u8) -> bool) {
+    for k in 0..12u8 {
+        if mine(k as usize, shard, n) && !f(k) {
+            return;
+        }
+    }
+}
+
+fn check_special(k: &u8, case: &mut Case) -> Result<(), Fail> {
+    use simple_dns::rdata::*;
+    use simple_dns::{Name, CLASS};
+    case.nontrivial = true;
+    let root = || Name::new_unchecked("");
+    let rd: RData = match k {
+        0 => RData::TXT(TXT::new()),
+        1 => RData::TXT(TXT::default()),
+        2 => RData::TXT(TXT::new().with_string("").unwrap()),
+        3 => RData::TXT(TXT::try_from(std::collections::HashMap::new()).unwrap()),
+        4 => RData::TXT(TXT::try_from("").unwrap()),
+        5 => RData::NULL(10, NULL::new(&[]).unwrap()),
+        6 => RData::NULL(99, NULL::new(&[]).unwrap()),
+        7 => RData::SVCB(SVCB::new(0, root())),
+        8 => RData::NSEC(NSEC { next_name: root(), type_bit_maps: vec![] }),
+        9 => RData::OPT(OPT { opt_codes: vec![], udp_packet_size: 0, version: 0 }),
+        10 => RData::Empty(simple_dns::TYPE::TXT),
+        _ => RData::NS(NS(root())),
+    };
+    let r = ResourceRecord::new(Name::new_unchecked("x.local"), CLASS::IN, 5, rd);
+    let cl = lib("clone", || r.clone())?;
+    let ow = lib("into_owned", || r.clone().into_owned())?;
+    for (what, other) in [("clone", &cl), ("owned copy", &ow)] {
+        ensure!(lib("eq", || *other == r)?, "c16:special-not-equal", "special value #{}: the {} is not equal to the original ({:?})", k, what, r.rdata);
+        ensure!(lib("eq", || other.rdata == r.rdata)?, "c16:special-not-equal", "special value #{}: the rdata of the {} is not equal to the original ({:?})", k, what, r.rdata);
+        ensure!(h(other) == h(&r) && h(&other.rdata) == h(&r.rdata), "c16:special-hash", "special value #{}: the {} hashes differently", k, what);
+        for compressed in [false, true] {
+            ensure!(wire_of_record(other, compressed)? == wire_of_record(&r, compressed)?, "c16:special-bytes", "special value #{}: the {} serialises differently (compressed={})", k, what, compressed);
+        }
+    }
+    // the owned copy must stay usable like the original: add a string to both TXT values and compare again
+    if let (RData::TXT(t0), RData::TXT(t1)) = (&r.rdata, &ow.rdata) {
+        let a = ResourceRecord::new(r.name.clone(), CLASS::IN, 5, RData::TXT(t0.clone().with_string("k=v").unwrap()));
+        let b = ResourceRecord::new(r.name.clone(), CLASS::IN, 5, RData::TXT(t1.clone().with_string("k=v").unwrap()));
+        for compressed in [false, true] {
+            ensure!(wire_of_record(&a, compressed)? == wire_of_record(&b, compressed)?, "c16:special-bytes", "special value #{}: after adding a string the owned copy serialises differently (compressed={})", k, compressed);
+        }
     }
     Ok(())
 }
@@ -225,11 +326,12 @@ fn check_inst(i: &Inst, case: &mut Case) -> Result<(), Fail> {
 pub fn def() -> CheckDef {
     CheckDef {
         id: "C16",
-        rule: "proptest: (1) suffix-sharing packets (as C03) built through the public API, serialised plain and compressed and parsed back, giving three versions of every value (built from parts, borrowed from the plain buffer, borrowed from the compressed buffer); each packet/question/record/name/label/RDATA is cloned and converted with into_owned (packets: rebuilt from owned parts) and must be ==, observe equally, hash equally and serialise to identical bytes plain and compressed; the three versions of each record must be pairwise ==, hash-equal and byte-equal. (2) records differing only in TTL / cache-flush: whenever == holds the hashes must agree and a HashSet must hold one entry. (3) InstanceInformation built 32 times from the same addresses/ports/attributes in rotated and reversed insertion orders (fresh HashSet seeds each time): equal, equal hashes, one HashSet slot. Non-trivial = a name with >= 2 labels or a variable-length field (instances: >= 2 distinct addresses or ports)",
+        rule: "proptest: (1) suffix-sharing packets (as C03) built through the public API, serialised plain and compressed and parsed back, giving three versions of every value (built from parts, borrowed from the plain buffer, borrowed from the compressed buffer); each packet/question/record/name/label/RDATA is cloned and converted with into_owned (packets: rebuilt from owned parts) and must be ==, observe equally, hash equally and serialise to identical bytes plain and compressed; the three versions of each record must be pairwise ==, hash-equal and byte-equal. (2) pairs of records differing only in TTL / cache-flush, in the letter case of one owner or RDATA-name label, or in class: whenever == holds (for the record, its name, its labels, its rdata) the hashes must agree and a HashSet must hold one entry. (2b) twelve edge values (empty TXT built five ways, empty NULL, SVCB without params, NSEC without windows, OPT without options, Empty, root names): clone and owned copy equal, hash-equal, byte-equal, also after a further string is added. (3) InstanceInformation built 32 times from the same addresses/ports/attributes in rotated and reversed insertion orders (fresh HashSet seeds each time): equal, equal hashes, one HashSet slot. Non-trivial = a name with >= 2 labels or a variable-length field (instances: >= 2 distinct addresses or ports)",
         assumptions: vec!["DefaultHasher::new() (fixed keys) for hash comparisons; std's per-HashSet RandomState only influences how quickly an order-dependent Hash is caught, never the verdict on a correct one"],
         sections: vec![
             Box::new(PropSection { name: "copies", rule: "clone / owned / built-vs-parsed", strategy: copies_strategy, cases: (60_000, 600_000), check: check_copies }),
             Box::new(PropSection { name: "ttl-flush", rule: "records equal up to ttl/flush", strategy: pair_strategy, cases: (200_000, 2_000_000), check: check_pair }),
+            Box::new(EnumSection { name: "special-values", rule: "edge values of the constructors", enumerate: enum_special, check: check_special, exhaustive: true }),
             Box::new(PropSection { name: "instance-info", rule: "set-valued instance information", strategy: inst_strategy, cases: (20_000, 200_000), check: check_inst }),
         ],
     }
